@@ -491,6 +491,9 @@ func runPipeline(c *ctx, which string) {
 			ingestRacesStop(c, i)
 		}
 	}
+	if which == "C05" || which == "C06" {
+		faultAtEveryFlushCall(c)
+	}
 	if which == "C07" {
 		for i := 0; i < 12*c.scale; i++ {
 			ackImpliesVisible(c, r, i)
@@ -910,4 +913,49 @@ func trickleAgainstStalledStore(c *ctx, r Rng, i int) {
 	ctx, cancel := context.WithTimeout(context.Background(), 10*time.Second)
 	eng.Stop(ctx)
 	cancel()
+}
+
+// faultAtEveryFlushCall (C05): one and two partition flushes with a failure injected at each store call in
+// turn (create, every write, close, update); whatever fails, every accepted batch is answered exactly once.
+func faultAtEveryFlushCall(c *ctx) {
+	for _, parts := range [][]string{{"a"}, {"a", "b"}} {
+		for k := 1; k <= 14; k++ {
+			cfg := bs.DefaultBloomSearchEngineConfig()
+			cfg.PartitionFunc = partitionFunc("p")
+			cfg.MaxBufferedTime = time.Hour
+			store := NewMemStore()
+			store.SetFaults([]string{"create", "write", "close", "update"}, k)
+			eng, err := bs.NewBloomSearchEngine(cfg, &FaultMeta{MetaStore: bs.NewMemoryMetaStore(), s: store}, store)
+			if err != nil {
+				fatal("engine: %v", err)
+			}
+			eng.Start()
+			var dones []chan error
+			for b := 0; b < 2; b++ {
+				var rows []map[string]any
+				for _, p := range parts {
+					rows = append(rows, map[string]any{"_id": b*10 + len(rows), "p": p})
+				}
+				d := make(chan error, 8)
+				dones = append(dones, d)
+				eng.IngestRows(context.Background(), rows, d)
+			}
+			eng.Flush(context.Background())
+			ctx, cancel := context.WithTimeout(context.Background(), 10*time.Second)
+			serr := eng.Stop(ctx)
+			cancel()
+			c.r.Case(true, fmt.Sprint("fault-at-flush-call", parts, k))
+			c.r.Hit("pipeline.fault-at-flush-call")
+			for i, d := range dones {
+				if n := len(d); n != 1 && serr == nil {
+					check := "answered-twice"
+					if n == 0 {
+						check = "unanswered-after-graceful-stop"
+					}
+					c.r.Add(Finding{Kind: "violation", Check: check, Detail: fmt.Sprintf("with store call #%d of a %d-partition flush failing, batch %d received %d values on its done channel (Stop returned nil)", k, len(parts), i+1, n),
+						Replay: map[string]any{"partitions": parts, "failing_call": k}})
+				}
+			}
+		}
+	}
 }
